@@ -273,6 +273,21 @@ def model_line_t2t(c, fuel=FUEL):
         1 if c.unkn else 0, c.thresh, fuel)
 
 
+def model_line_class(c, fuel=FUEL):
+    """is the document in the class of the end-to-end theorems? (ClassDecide)"""
+    mods = [(1, m) for m in (c.dcls.split(',') if c.dcls else [])]
+    mods += [(0, m) for m in expand_packs(c.pack)]
+    extr = ['\\' + s for s in c.extr.split(',')] if c.extr else []
+    return 'in_class %d %s %s %d %d %s %s %s %s %d' % (
+        1 if c.nosp else 0,
+        core.enc_list(list(c.files.items()),
+                      lambda e: core.enc_str(e[0]) + ' ' + core.enc_str(e[1])),
+        core.enc_str(c.lang or ''), 1 if c.multi else 0, 1 if c.seqs else 0,
+        core.enc_list(mods, lambda m: '%d %s' % (m[0], core.enc_str(m[1]))),
+        core.enc_str(c.defs or ''), core.enc_str(c.latex),
+        core.enc_list(extr, core.enc_str), fuel)
+
+
 def parse_model_t2t(o):
     r = core.Reader(o)
     tag = r.word()
